@@ -253,7 +253,7 @@ class SupervisedTimeSeriesForest(ForestClassifier, BaseClassifier):
         """
         n_instances, series_length = X.shape
         split_point = (
-            series_length / 2
+            int(series_length / 2)
             if series_length <= 8
             else rng.randint(4, series_length - 4)
         )
